@@ -366,6 +366,19 @@ let register (reg : string -> (string list -> string) -> unit) =
   reg "concat" (function [n; f; s; c] -> concat_case n f s c | _ -> "BADARGS");
   reg "http" (function [t; e; sc] -> http_case t e sc | [t; e] -> http_case t e "" | _ -> "BADARGS");
   reg "xml" (function [k; t] -> xml_case k t | [k] -> xml_case k "" | _ -> "BADARGS");
+  reg "glob" (function [g; paths] | [g; paths; _] ->
+      let gb = hexd g in
+      let ps = if paths = "" || paths = "-" then [] else Stdlib.List.map hexd (split ',' paths) in
+      hexe (GlobModel.compile_src gb) ^ " " ^ Stdlib.String.concat "" (Stdlib.List.map (fun p -> if GlobModel.glob_matches gb p then "1" else "0") ps)
+    | [g] -> hexe (GlobModel.compile_src (hexd g)) ^ " "
+    | _ -> "BADARGS");
+  reg "filter" (function [ms; fs; paths] ->
+      let lst s = if s = "" || s = "-" then [] else Stdlib.List.map hexd (split ',' s) in
+      let filters = Stdlib.List.map (fun f -> match f with
+        | c :: r -> (c = z_of_int 43, r)
+        | [] -> (true, [])) (lst fs) in
+      Stdlib.String.concat "" (Stdlib.List.map (fun p -> if GlobModel.file_filter (lst ms) filters p then "1" else "0") (lst paths))
+    | _ -> "BADARGS");
   reg "cssdim" (function [kind; k; drops; tok] ->
       let keep = (k = "1") and b = hexd tok and d = (drops = "1") in
       let optzero dim = Stdlib.List.exists (fun (u, _) -> u = dim) Tables_gen.css_zero_dimensions in
